@@ -45,6 +45,7 @@ void sim_set_cores(int n);            // what sysconf(_SC_NPROCESSORS_ONLN)/get_
 void sim_set_spurious(int on);        // allow spurious condvar wake-ups
 void sim_set_clock_jumps(int on);     // seeded forward jumps of the simulated clock
 void sim_set_step_cap(uint64_t cap);
+void sim_set_tso(int on);             // explore x86-TSO store buffering (store->load reordering) in this run
 
 // ---- heap attribution / race watching ------------------------------------------------------
 enum { SIM_TAG_HARNESS = 0, SIM_TAG_INFRA = 1, SIM_TAG_SUT = 2 };
